@@ -242,6 +242,12 @@ func yieldEnabled() bool { return active && yieldOn }
 //go:norace
 func SetYield(on bool) { yieldOn = on }
 
+// OpBoundary is a scheduling point the SCENARIO places between two library calls of a thread (always on). With it
+// the explorer interleaves two threads at operation granularity, so that conflicting accesses of the same operation
+// on two threads lie next to each other in time (the race detector reports a conflict that lies far back in a
+// thread's history only sometimes).
+func OpBoundary() { point("op") }
+
 // Run executes the thread bodies under the controlled scheduler: choices are taken from pre, then the
 // default (index 0: keep running the current thread). It returns after all threads have finished or the
 // execution was aborted (deadlock, divergence, point cap).
